@@ -319,7 +319,7 @@ func (x *Ctx) runPasses(passes []*Pass) {
 			if x.valMode && (!x.InValidationSlice() || !x.valInputs[[2]int64{int64(pi), x.inputIdx}]) {
 				return
 			}
-			if !x.deadline.IsZero() && x.inputIdx%64 == int64(x.shard) && time.Now().After(x.deadline) {
+			if !x.deadline.IsZero() && time.Now().After(x.deadline) {
 				stopped = true
 				x.st.DeadlineHit = true
 				x.st.Notes = append(x.st.Notes, fmt.Sprintf("deadline reached in pass %s at input index %d", p.Name, x.inputIdx))
